@@ -670,7 +670,7 @@ func main() {
 	_ = big.NewInt
 	base := lib.Scratch(prop)
 	defer os.RemoveAll(base)
-	n := lib.Pick(120, 12000)
+	n := lib.Pick(120, 6000)
 	lib.Parallel(n, 12, func(i int) { runCase(run, int64(i), base) })
 	run.Require("valid_txs", 300)
 	run.Require("invalid_txs", 200)
